@@ -50,6 +50,7 @@ type c10Env struct {
 	curPos  string
 	lastErr error
 	kind    string
+	lostClient bool // the next request comes from a client whose connection fails on every body write
 }
 
 // c10Stringer is a panic value whose String method cannot be called safely (nil receiver, or it panics itself).
@@ -276,6 +277,7 @@ func (e *c10Env) send(k *c10Case, path, panicAt string) *c10Resp {
 	}
 	hr = hr.WithContext(cctx)
 	rec := rt.NewRec()
+	rec.FailBody = e.lostClient
 	out := &c10Resp{}
 	func() {
 		defer func() { out.escaped = recover() }()
@@ -318,7 +320,7 @@ var c10Stop bool
 func c10(ctx *core.Ctx) {
 	quietLogs()
 	c10Stop = false
-	ctx.Rule("crash points enumerated completely: panic in each of 2 container / 2 service / 2 route filters before and after passing control, in the handler before / between / after its writes and inside ReadEntity (a gzip-declared request body whose Read panics), in an If-condition, and (routing-failure request) in container filters and the custom error handler; x recovery {on, off} x coding {none, gzip, deflate} (container switch or route override) x provider {sync.Pool, bounded(1), custom} x entry {Dispatch, ServeHTTP} x filters writing output or not x custom (answers 503 with a header of its own) / default recover handler x panic value kind {pointer, string, error, runtime error, http.ErrAbortHandler, typed-nil error, typed-nil Stringer, Stringer whose String panics, restful.ServiceError by value}; the obsolete package variable restful.DoNotRecover set in every 7th case (value kinds on the sync.Pool / no-marker slice). Monitors: recover() around the entry, recording RecoverHandler, compressor ledger, probe requests replayed after every panic, Add+Remove afterwards (needs the write lock). Then sequences of 20 mixed panicking/normal requests per container. Non-trivial = every crash case; distinct by the full cell.")
+	ctx.Rule("crash points enumerated completely: panic in each of 2 container / 2 service / 2 route filters before and after passing control, in the handler before / between / after its writes and inside ReadEntity (a gzip-declared request body whose Read panics), in an If-condition, and (routing-failure request) in container filters and the custom error handler; x recovery {on, off} x coding {none, gzip, deflate} (container switch or route override) x provider {sync.Pool, bounded(1), custom} x entry {Dispatch, ServeHTTP} x filters writing output or not x custom (answers 503 with a header of its own) / default recover handler x now and then (in sequences) the same panicking request first from a client whose connection fails on every body write x panic value kind {pointer, string, error, runtime error, http.ErrAbortHandler, typed-nil error, typed-nil Stringer, Stringer whose String panics, restful.ServiceError by value}; the obsolete package variable restful.DoNotRecover set in every 7th case (value kinds on the sync.Pool / no-marker slice). Monitors: recover() around the entry, recording RecoverHandler, compressor ledger, probe requests replayed after every panic, Add+Remove afterwards (needs the write lock). Then sequences of 20 mixed panicking/normal requests per container. Non-trivial = every crash case; distinct by the full cell.")
 	ctx.Assume("HandleWithFilter is excluded: the property speaks of routed dispatch",
 		"panic values are pointers so that 'the same value' is decided by identity")
 	defer func() {
@@ -442,6 +444,14 @@ func c10One(ctx *core.Ctx, ci int, k *c10Case, seq []string) {
 		path = "/p/none"
 	}
 	for step, pos := range seq {
+		if pos != "" && len(seq) > 1 && step%3 == 1 {
+			// the same panicking request from a client that has gone away (every body write fails): what becomes of that
+			// response is not judged - the next one must be complete and must be its own
+			env.lostClient = true
+			env.send(k, path, pos)
+			env.lostClient = false
+			ctx.Count("panicking_requests_from_a_lost_client", 1)
+		}
 		env.recN, env.recVal = 0, nil
 		a0, r0 := env.ledger.Counts()
 		r := env.send(k, path, pos)
@@ -482,6 +492,8 @@ func c10One(ctx *core.Ctx, ci int, k *c10Case, seq []string) {
 						}
 					} else if !bytes.Contains(pl, []byte("recover from panic situation: - ")) || (!hostileValue(k.Value) && !bytes.Contains(pl, []byte("injected:"+pos))) {
 						ctx.Violation(ci, "c10:default-recover-output:"+pcell, fmt.Sprintf("default recover text missing: %.80q", pl), d)
+					} else if n := bytes.Count(pl, []byte("recover from panic situation: - ")); n != 1 {
+						ctx.Violation(ci, "c10:default-recover-output-of-another-request:"+pcell, fmt.Sprintf("the panic is passed ONCE to the recover handler, the response holds its report %d times (the report of an earlier request?): %.200q", n, pl), d)
 					}
 					// nothing written before the panic => the recover handler's status
 					wroteBefore := len(r.logged) > 0 && !bytes.HasPrefix(r.logged, []byte("RECOVERED:"))
